@@ -169,6 +169,7 @@ pub struct Ctx {
     known: Vec<KnownFinding>,
     known_lines: Vec<String>,
     inconclusive: Vec<String>,
+    floors: Vec<(String, u64, u64)>,
     replayed_regressions: u64,
     stale_replays: u64,
     per_check: Vec<Value>,
@@ -260,6 +261,7 @@ impl Ctx {
             known,
             known_lines: Vec::new(),
             inconclusive: Vec::new(),
+            floors: Vec::new(),
             replayed_regressions: 0,
             stale_replays: 0,
             per_check: Vec::new(),
@@ -636,6 +638,7 @@ impl Ctx {
             return;
         }
         let got = self.classes.get(class).copied().unwrap_or(0);
+        self.floors.push((class.to_string(), min, got));
         if got < min {
             self.inconclusive
                 .push(format!("class '{class}' has {got} cases, floor {min} (generator defect)"));
@@ -654,6 +657,7 @@ impl Ctx {
         }
         let mut coverage = serde_json::Map::new();
         coverage.insert("evaluations".into(), json!(self.evaluations));
+        coverage.insert("generator_floors".into(), json!(self.floors.iter().map(|(c, m, g)| json!({"class": c, "floor": m, "count": g})).collect::<Vec<_>>()));
         coverage.insert("distinct_nontrivial".into(), json!(self.nontrivial.len()));
         coverage.insert("rule".into(), json!(self.rules.join(" | ")));
         coverage.insert("samples".into(), json!(self.samples));
